@@ -121,6 +121,10 @@ class AsyncPolicy:
         except Exception as exc:
             self._handle_exception_call(ctx, exc, on_attempt_end)
             raise
+        except BaseException:
+            # GeneratorExit / CancelledError / any other non-Exception: the admitted call is over
+            record_cancel(ctx)
+            raise
 
     async def _call_without_retry(
         self,
@@ -155,6 +159,7 @@ class AsyncPolicy:
         on_end: AttemptHook | None,
     ) -> None:
         """Handle AbortRetryError in call mode."""
+        record_cancel(ctx)
         if self.retry is None and on_end is not None:
             on_end(
                 make_attempt_context(
@@ -166,7 +171,6 @@ class AsyncPolicy:
                     stop_reason=StopReason.ABORTED,
                 )
             )
-        record_cancel(ctx)
 
     def _handle_exhausted_call(
         self,
@@ -185,7 +189,16 @@ class AsyncPolicy:
     ) -> None:
         """Handle general exception in call mode."""
         if isinstance(exc, CircuitOpenError):
+            # A nested breaker rejected the call: not a failure of this dependency,
+            # but this admitted call is over, so release the probe slot.
+            record_cancel(ctx)
             return
+
+        try:
+            klass = classify_for_breaker(exc, self.retry)
+        except Exception:
+            klass = ErrorClass.UNKNOWN
+        record_failure(ctx, klass)
 
         if self.retry is None and on_end is not None:
             on_end(
@@ -198,9 +211,6 @@ class AsyncPolicy:
                     cause="exception",
                 )
             )
-
-        klass = classify_for_breaker(exc, self.retry)
-        record_failure(ctx, klass)
 
     async def execute(
         self,
@@ -268,19 +278,32 @@ class AsyncPolicy:
         """Execute with retry and record result with breaker."""
         retry = self.retry
         assert retry is not None
-        outcome = await retry.execute(
-            func,
-            on_metric=on_metric,
-            on_log=on_log,
-            operation=operation,
-            abort_if=abort_if,
-            sleep=sleep,
-            before_sleep=before_sleep,
-            sleeper=sleeper,
-            on_attempt_start=on_attempt_start,
-            on_attempt_end=on_attempt_end,
-            capture_timeline=capture_timeline,
-        )
+        try:
+            outcome = await retry.execute(
+                func,
+                on_metric=on_metric,
+                on_log=on_log,
+                operation=operation,
+                abort_if=abort_if,
+                sleep=sleep,
+                before_sleep=before_sleep,
+                sleeper=sleeper,
+                on_attempt_start=on_attempt_start,
+                on_attempt_end=on_attempt_end,
+                capture_timeline=capture_timeline,
+            )
+        except RetryExhaustedError as exc:
+            self._handle_exhausted_call(ctx, exc)
+            raise
+        except AbortRetryError:
+            record_cancel(ctx)
+            raise
+        except Exception as exc:
+            self._handle_exception_call(ctx, exc, None)
+            raise
+        except BaseException:
+            record_cancel(ctx)
+            raise
 
         # Record with circuit breaker
         if ctx.breaker is not None:
@@ -346,6 +369,10 @@ class AsyncPolicy:
                     )
                 )
             return build_exception_outcome_no_retry(ctx, exc, klass)
+
+        except BaseException:
+            record_cancel(ctx)
+            raise
 
         # Success
         record_success(ctx)
